@@ -79,6 +79,58 @@ Theorem C18_readline : forall s, read_lines s = Ok (split_lines s).
 Proof. exact readline_split_lines. Qed.
 Print Assumptions C18_readline.
 
+(* ReadLine over a reader that can FAIL. The stream under the bufio.Reader is a list of events, a byte (< 256) or a
+   read error (256 + code; 256 is io.EOF) that the underlying Read hands out once ([read_calls n s]: n calls of
+   ReadLine in a row; [RlLine l] is (l, nil), [RlErr c] is (nil, error c); the model is independent of how the bytes
+   are cut into Read calls, of bufio's buffer size and of whether the error arrives with the last data).
+   For every stream [whole ++ frag ++ e :: rest] where [whole] is any number of complete lines, [frag] is the
+   beginning (possibly empty) of the next line and [e] is a read error other than io.EOF: the calls return exactly
+   the lines of [whole], then the error e, then whatever the calls on [rest] return. The fragment is never handed
+   out as a line: a caller that loops on err == nil ([until_err]) sees the lines of [whole] and the error. *)
+Theorem C18_readline_io_error : forall whole frag e rest n,
+  (forall c, In c whole -> c < 256) -> (whole = [] \/ exists w, whole = w ++ [10]) ->
+  (forall c, In c frag -> c < 256) -> ~ In 10 frag -> 256 < e ->
+  exists more, read_calls n rest = Ok more /\
+    read_calls (length (split_lines whole) + S n) (whole ++ frag ++ e :: rest)
+      = Ok (map RlLine (split_lines whole) ++ RlErr e :: more) /\
+    until_err (map RlLine (split_lines whole) ++ RlErr e :: more) = (split_lines whole, Some e).
+Proof. exact readline_io_error. Qed.
+Print Assumptions C18_readline_io_error.
+
+(* ... and on a stream without read errors the event model is the model of C18_readline: the lines of the stream,
+   then io.EOF on every further call *)
+Theorem C18_readline_ev_clean : forall s n, (forall c, In c s -> c < 256) ->
+  read_calls (length (split_lines s) + n) s = Ok (map RlLine (split_lines s) ++ repeat (RlErr EV_EOF) n) /\
+  read_lines s = Ok (split_lines s).
+Proof. exact readline_ev_clean. Qed.
+Print Assumptions C18_readline_ev_clean.
+
+(* ... and ReadLine returns on every event stream whatsoever (errors anywhere, io.EOF in the middle included) *)
+Theorem C18_readline_ev_total : forall n s, exists o, read_calls n s = Ok o /\ length o = n.
+Proof. exact read_calls_total. Qed.
+Print Assumptions C18_readline_ev_total.
+
+(* cmsys.FileFindRecord / FileExistsRecord read EVERY line of the file, whatever its length: the answer is the
+   1-based number of the first line (lines as split_lines cuts them) that matches the key, 0 / false exactly when no
+   line of the file matches — in particular a line of any size before the one looked for does not hide it *)
+Theorem C18_find_record : forall content key,
+  exists idx, file_find_record content key = Ok idx /\ file_exists_record content key = Ok (0 <? idx) /\ 0 <= idx /\
+    ((idx = 0 /\ forall l, In l (split_lines content) -> line_matches key l = false) \/
+     (exists pre l post, split_lines content = pre ++ l :: post /\ idx = lenZ pre + 1 /\
+        line_matches key l = true /\ forall l', In l' pre -> line_matches key l' = false)).
+Proof. exact file_find_record_spec. Qed.
+Print Assumptions C18_find_record.
+
+(* a line matches when strcasecmp of the NUL-terminated prefixes of the key and of the line's first token is 0; the
+   token is a prefix of the line (cmsys.tokenize cuts at the LAST blank/tab/CR/LF of the line), the whole line when
+   the line has no such byte *)
+Theorem C18_line_matches : forall key line,
+  line_matches key line = (strcasecmp_spec (cprefix key) (cprefix (tokenize_first line BYTES_SPACE)) =? 0) /\
+  (exists tail, line = tokenize_first line BYTES_SPACE ++ tail) /\
+  ((forall c, In c line -> existsb (Z.eqb c) BYTES_SPACE = false) -> tokenize_first line BYTES_SPACE = line).
+Proof. exact line_matches_spec. Qed.
+Print Assumptions C18_line_matches.
+
 (* the table StripAnsi consults has one entry per byte value; parameter bytes are 0-9 ; = and command
    bytes are ABCDHIJKfhlmsu — re-checked against the table regenerated from cmsys/const.go *)
 Theorem C18_escape_flag_spec :
